@@ -63,7 +63,7 @@ def generate(rng, tier):
 
 
 def execute(sc, ctx):
-    m = Model()
+    m = Model(seed=20260927)
     ref = RefWorld(sc["world"])
     env = make_world(m, sc["world"])
     n = max(1, int(sc["n"]))
